@@ -31,7 +31,7 @@ pub struct GCfg {
 /// (source chain, message id) pairs; ("ab","c") / ("a","bc") split the same
 /// characters differently between chain and id; the first two share the id on
 /// different chains.
-pub const IDS: [(&str, &str); 25] = [
+pub const IDS: [(&str, &str); 29] = [
     ("avalanche", "0xaa-0"),
     ("ethereum", "0xaa-0"),
     ("ethereum", "0xaa-1"),
@@ -61,9 +61,16 @@ pub const IDS: [(&str, &str); 25] = [
     ("s", "t.k"),
     ("h\0i", "j"),
     ("h", "i\0j"),
+    // pairs a normalising comparison (case, surrounding blanks) would identify
+    ("polygon", "0xAbC-1"),
+    ("Polygon", "0xabc-1"),
+    ("fantom", "7"),
+    ("fantom ", " 7"),
 ];
-pub const SRCS: [&str; 3] = [
+pub const SRCS: [&str; 4] = [
     "0x4EFE356BEDeCC817cb89B4E9b796dB8bC188DC59",
+    // the same address in lower case directly after it: the "next source" deviation hits it
+    "0x4efe356bedecc817cb89b4e9b796db8bc188dc59",
     "0xSender2",
     "",
 ];
